@@ -145,4 +145,99 @@ theorem numberToFloat_generic_exact {F : FTy} (hF : IsLemireFloat F) (slow : Slo
   rw [hsp]
   exact hslow fp hm hneg hbr
 
+/-- the booked truncation error of a mantissa of at least 55 bits is at most 513 units -/
+theorem clz_small55 {w : Nat} (h1 : 2 ^ 55 ≤ w) (h2 : w < 2 ^ 64) : 2 * 2 ^ clz64 w + 1 ≤ 513 := by
+  obtain ⟨_, _, hlt, _⟩ := LexVerif.Proof.BinaryCorrect.clz_norm (M := w) (by
+    have := Nat.two_pow_pos 55; omega) h2
+  have : 2 ^ 55 * 2 ^ clz64 w < 2 ^ 55 * 2 ^ 9 := by
+    calc 2 ^ 55 * 2 ^ clz64 w ≤ w * 2 ^ clz64 w := Nat.mul_le_mul_right _ h1
+      _ < 2 ^ 64 := hlt
+      _ = 2 ^ 55 * 2 ^ 9 := by norm_num
+  have h5 := Nat.lt_of_mul_lt_mul_left this
+  have h4 : clz64 w < 9 := (Nat.pow_lt_pow_iff_right (by decide : 1 < 2)).mp h5
+  have h16 : 2 ^ clz64 w ≤ 2 ^ 8 := Nat.pow_le_pow_right (by decide) (by omega)
+  omega
+
+/-- **a generic-radix `Number`, truncated mantissa** (at least 55 bits, as every `u64_step`-digit mantissa has): the value
+of all the digits is a true value of the `Number` (`htv`); a valid answer of `bellerophon` is right, an invalid-marked one
+brackets the value; `hslow`: what `slow_radix` returns for it -/
+theorem numberToFloat_generic_truncated {F : FTy} (hF : IsLemireFloat F) (slow : SlowRadix) (c : Cfg) (G : GenericClass c)
+    (n : Number) (hmany : n.manyDigits = true) (hw : n.mantissa < 2 ^ 64) (hw55 : 2 ^ 55 ≤ n.mantissa)
+    (htv : TrueValue c.mantissaRadix (numOf n) (litFrac c.mantissaRadix c.exponentBase (numberLit c n)).1
+      (litFrac c.mantissaRadix c.exponentBase (numberLit c n)).2)
+    (hslow : ∀ fp, moderatePath c F (numOf n) false = .ok fp → fp.exp < 0 →
+      Bracket F fp (litFrac c.mantissaRadix c.exponentBase (numberLit c n)).1
+        (litFrac c.mantissaRadix c.exponentBase (numberLit c n)).2 →
+      extendedToFloat F (slow c F n { fp with exp := fp.exp - invalidFp }) =
+        roundNE F.fmt (litFrac c.mantissaRadix c.exponentBase (numberLit c n)).1
+          (litFrac c.mantissaRadix c.exponentBase (numberLit c n)).2) :
+    numberToFloat slow c F n false = some (numberBits c F.fmt n) := by
+  obtain ⟨p, eb, lay⟩ := layout_of hF
+  obtain ⟨h2p, _, h2, h36⟩ := generic_not_pow2 G.mem
+  have hb2 : 2 ≤ c.exponentBase := by rw [G.base]; exact h2
+  have hmp := moderatePath_generic c G F (numOf n)
+  have hT := isBellTable_generic c.feats G.mem
+  have hc := bellFacts_generic c.feats G.mem
+  have hp53 : p ≤ 53 := by
+    have hfmt := lay.fmt
+    rcases hF with h | h <;> subst h
+    · have h1 : FTy.f64.fmt.p = p := by rw [hfmt]
+      have : FTy.f64.fmt.p = 53 := rfl
+      omega
+    · have h1 : FTy.f32.fmt.p = p := by rw [hfmt]
+      have : FTy.f32.fmt.p = 24 := rfl
+      omega
+  have hlitpos := litFrac_den_pos (show 0 < c.mantissaRadix by omega) (show 0 < c.exponentBase by omega) (numberLit c n)
+  have hmw : (numOf n).manyDigits = true → 2 ^ 44 ≤ (numOf n).mantissa := by
+    intro _
+    have : (2 : Nat) ^ 44 ≤ 2 ^ 55 := by decide
+    exact Nat.le_trans this hw55
+  -- the specification side
+  have hbits : numberBits c F.fmt n = litBits F.fmt c.mantissaRadix c.exponentBase (numberLit c n) := by
+    unfold numberBits numberLit
+    simp only [hmany, if_true]
+    rfl
+  have hlit := litBits_exact lay h2 (by omega) hb2 (numberLit c n) (numberLit_digits_lt c n)
+  have hfast : FastPath.tryFastPath (smallSetOf c.feats) F c.mantissaRadix c.exponentBase (numOf n) = .none := by
+    unfold FastPath.tryFastPath FastPath.isFastPath
+    have : (numOf n).manyDigits = true := hmany
+    simp [this]
+  cases hbel : Bellerophon.bellerophon F (Bellerophon.powersOf c.feats c.mantissaRadix) (numOf n) false with
+  | panic => exact absurd hbel (bellerophon_no_panic_radix F _ _ hT (numOf n) false)
+  | ok fp =>
+    have hm : moderatePath c F (numOf n) false = .ok fp := by rw [hmp, hbel]
+    unfold numberToFloat
+    rw [hfast]
+    simp only
+    rw [hm]
+    simp only
+    by_cases hv : 0 ≤ fp.exp
+    · have hsound := bellerophon_radix_sound F hF _ _ hT (numOf n) hw hmw _ _ hlitpos htv hbel hv
+      rw [if_neg (by omega), toNative_eq F fp n.isNegative hsound, hbits, hlit]
+      rfl
+    · have hinv : fp.exp < 0 := by omega
+      obtain ⟨_, _, hE⟩ := bellerophon_invalid_est lay hc (numOf n) hw hmw _ _ hlitpos htv hbel hinv
+      have hch : (8 + if (numOf n).manyDigits then 2 * 2 ^ clz64 (numOf n).mantissa + 1 else 0) ≤ 521 := by
+        have e1 : (numOf n).manyDigits = true := hmany
+        rw [e1, if_pos rfl]
+        have := clz_small55 hw55 hw
+        have e2 : (numOf n).mantissa = n.mantissa := rfl
+        rw [e2]; omega
+      have h16 : 4 * 4 ≤ 2 ^ (64 - p) := by
+        calc 4 * 4 ≤ 2 ^ 11 := by decide
+          _ ≤ 2 ^ (64 - p) := Nat.pow_le_pow_right (by decide) (by omega)
+      have h8 : 2 * 521 ≤ 2 ^ (64 - p) := by
+        calc 2 * 521 ≤ 2 ^ 11 := by decide
+          _ ≤ 2 ^ (64 - p) := Nat.pow_le_pow_right (by decide) (by omega)
+      have hbr : Bracket F fp (litFrac c.mantissaRadix c.exponentBase (numberLit c n)).1
+          (litFrac c.mantissaRadix c.exponentBase (numberLit c n)).2 :=
+        bracket_of_est2 lay 4 521 h16 h8 (by decide) _ _ _ hlitpos (C01Compact.est2_mono hE hch)
+      have hsp : slowPath slow c F n { fp with exp := fp.exp - invalidFp } =
+          slow c F n { fp with exp := fp.exp - invalidFp } := by
+        unfold slowPath
+        rw [h2p, Bool.and_false]
+        simp
+      rw [if_pos hinv, hsp, toNative_eq F _ n.isNegative (hslow fp hm hinv hbr), hbits, hlit]
+      rfl
+
 end LexVerif.Props.C05Final
